@@ -125,7 +125,7 @@ def catalogue(py4hw, quick):
 
     def b_repeat(hw, c):
         i, r = hw.wire('i', 1), hw.wire('r', c['wr']); L.Repeat(hw, 'dut', i, r); return [i], [r]
-    B.append(Block('Repeat', b_repeat, lambda c: lam(1, '[Repeat_m %d x0]' % c['wr']), lambda c: lam(1, '[repeat_spec %d x0]' % c['wr']), lambda c: [1],
+    B.append(Block('Repeat', b_repeat, lambda c: lam(1, '[Repeat_m %d x0]' % c['wr']), lambda c: lam(1, '[replicate_spec %d x0]' % c['wr']), lambda c: [1],
                    [dict(wr=w) for w in (1, 2, 3, 7, 32, 100)]))
 
     def b_bufen(hw, c):
